@@ -1,0 +1,102 @@
+//! Verification hooks, compiled only with the `verif` cargo feature.
+//!
+//! Everything in here is a no-op unless a callback has been installed by an external
+//! test harness. None of it is used by LocustDB itself.
+
+/// H1: primitive file-system effects of `FileBlobWriter`.
+pub mod fs {
+    use std::path::Path;
+    use std::sync::{Arc, RwLock};
+
+    #[derive(Debug, Clone, Copy, PartialEq, Eq, Hash)]
+    pub enum Kind {
+        Mkdir,
+        Create,
+        Write,
+        Sync,
+        Rename,
+        Remove,
+    }
+
+    #[derive(Debug, Clone, Copy, PartialEq, Eq, Hash)]
+    pub enum Phase {
+        Before,
+        After,
+    }
+
+    pub struct Effect<'a> {
+        pub kind: Kind,
+        pub phase: Phase,
+        pub path: &'a Path,
+        /// Rename target.
+        pub to: Option<&'a Path>,
+        /// Payload of a write.
+        pub data: Option<&'a [u8]>,
+    }
+
+    pub type Hook = Arc<dyn Fn(&Effect) + Send + Sync>;
+
+    lazy_static! {
+        static ref HOOK: RwLock<Option<Hook>> = RwLock::new(None);
+    }
+
+    pub fn set(hook: Option<Hook>) {
+        *HOOK.write().unwrap() = hook;
+    }
+
+    pub fn emit(kind: Kind, phase: Phase, path: &Path, to: Option<&Path>, data: Option<&[u8]>) {
+        let hook = HOOK.read().unwrap().clone();
+        if let Some(hook) = hook {
+            hook(&Effect {
+                kind,
+                phase,
+                path,
+                to,
+                data,
+            });
+        }
+    }
+}
+
+/// H2: named synchronisation points. The callback may block the calling thread.
+pub mod sync {
+    use std::sync::{Arc, RwLock};
+
+    /// (label, instance, detail): instance identifies the database (address of its
+    /// `InnerLocustDB`, 0 if unknown), detail is e.g. a table name.
+    pub type Hook = Arc<dyn Fn(&str, usize, &str) + Send + Sync>;
+
+    lazy_static! {
+        static ref HOOK: RwLock<Option<Hook>> = RwLock::new(None);
+    }
+
+    pub fn set(hook: Option<Hook>) {
+        *HOOK.write().unwrap() = hook;
+    }
+
+    pub fn point(label: &str, instance: usize, detail: &str) {
+        let hook = HOOK.read().unwrap().clone();
+        if let Some(hook) = hook {
+            hook(label, instance, detail);
+        }
+    }
+}
+
+/// H3: re-exports of internal types and thin wrappers around private functions.
+pub mod internals {
+    pub use crate::disk_store::verif_exports::{
+        BlobWriter, FileBlobWriter, PartitionSegment, VersionedChecksummedBlobWriter,
+    };
+    pub use crate::disk_store::meta_store::{MetaStore, PartitionMetadata, SubpartitionMetadata};
+    pub use crate::disk_store::wal_segment::WalSegment;
+    pub use crate::engine::data_types::{BasicType, EncodingType};
+    pub use crate::mem_store::column_buffer::ColumnBuffer;
+    pub use crate::mem_store::{Codec, CodecOp, Column, DataSection, DataSource};
+    pub use crate::disk_store::storage::{verif_partition_filename, verif_sanitize_table_name};
+    pub use crate::scheduler::inner_locustdb::verif_is_filesystem_safe;
+
+    /// `MetaStore::serialize` needs a crate-private tracer.
+    pub fn serialize_metastore(meta_store: &MetaStore) -> Vec<u8> {
+        meta_store.serialize(&mut crate::observability::SimpleTracer::default())
+    }
+}
